@@ -35,7 +35,7 @@ func NewH264Depacketizer(meta *codec.VideoMeta, w codec.FrameWriter) Depacketize
 
 func (h264dp *h264Depacketizer) Depacketize(packet *Packet) (err error) {
 	payload := packet.Payload()
-	if len(payload) < 3 {
+	if len(payload) < 1 {
 		return
 	}
 
@@ -45,6 +45,10 @@ func (h264dp *h264Depacketizer) Depacketize(packet *Packet) (err error) {
 	// |F|NRI|  Type   |
 	// +---------------+
 	naluType := payload[0] & h264.NalTypeBitmask
+	if len(payload) < 3 && naluType >= h264.NalStapaInRtp {
+		// 聚合包/分片包至少需要 3 字节；单 NAL 包可以只有 1-2 字节(如 AUD、End of sequence)
+		return
+	}
 
 	switch {
 	case naluType < h264.NalStapaInRtp:
